@@ -56,6 +56,9 @@ func generate(b *xmlBatch, dir string, tops []string) (map[string]*genOutcome, e
 		return nil, err
 	}
 	for name, x := range b.Files {
+		if err := os.MkdirAll(filepath.Dir(filepath.Join(dir, name)), 0o755); err != nil {
+			return nil, err
+		}
 		if err := os.WriteFile(filepath.Join(dir, name), []byte(ref.RenderXML(x)), 0o644); err != nil {
 			return nil, err
 		}
